@@ -10,5 +10,6 @@ func TestVerifReplay(t *testing.T) {
 	vrt.RunReplay(t, map[string]func(){
 		"VerifC12LocksQuick":    VerifC12LocksQuick,
 		"VerifC12LocksThorough": VerifC12LocksThorough,
+		"VerifC12LocksPartial":  VerifC12LocksPartial,
 	})
 }
